@@ -5,7 +5,11 @@ import storelib
 FL = '{"flush"}'
 CFGS = {
     "quick": [("c04-a", dict(FlushSteps="TRUE", CrashAt=FL, MaxStmts=3, MaxRows=3, MaxFlush=1, MaxCrash=1, Tables='{"t1"}', Vals="{1}"), None),
-              ("c04-b", dict(FlushSteps="TRUE", CrashAt=FL, MaxStmts=3, MaxRows=2, MaxFlush=1, MaxCrash=2, Tables='{"t1"}', Vals="{1}", Ops='{"create", "insert", "delete"}'), 15000)],
+              ("c04-b", dict(FlushSteps="TRUE", CrashAt=FL, MaxStmts=3, MaxRows=2, MaxFlush=1, MaxCrash=2, Tables='{"t1"}', Vals="{1}", Ops='{"create", "insert", "delete"}'), 15000),
+              # two tables, changes interleaved over their pages, flushes of existing pages torn anywhere, statements continue afterwards
+              ("c04-d", dict(FlushSteps="TRUE", CrashAt=FL, MaxStmts=5, MaxRows=1, MaxFlush=1, MaxCrash=1, Vals="{1}", Ops='{"create", "insert"}'), 15000),
+              # a torn flush of existing pages, recovery, more statements, a clean restart
+              ("c04-e", dict(FlushSteps="TRUE", CrashAt='{"flush", "idle"}', MaxStmts=4, MaxRows=1, MaxFlush=2, MaxCrash=2, Tables='{"t1"}', Vals="{1}", Ops='{"create", "insert", "update"}'), 15000)],
     "thorough": [("c04-a", dict(FlushSteps="TRUE", CrashAt=FL, MaxStmts=4, MaxRows=3, MaxFlush=1, MaxCrash=1, Tables='{"t1"}'), 80000),
                  ("c04-b", dict(FlushSteps="TRUE", CrashAt=FL, MaxStmts=4, MaxRows=3, MaxFlush=2, MaxCrash=2, Tables='{"t1"}', Vals="{1}"), 80000),
                  ("c04-c", dict(FlushSteps="TRUE", CrashAt=FL, MaxStmts=3, MaxRows=2, MaxFlush=1, MaxCrash=1), 60000)],
@@ -21,8 +25,9 @@ def run(ctx):
     feats = {}
     try:
         for name, over, sample in CFGS[ctx.tier]:
-            st = storelib.StoreRun(ctx, name, over, sample=sample, probes=False,
-                                   select=lambda sc: any(s["a"] == "crash" and s["at"] == "flush" for s in sc["steps"])).run(pool, storelib.default_violation(ctx), cov)
+            st = storelib.StoreRun(ctx, name, dict(over, EmitSel='"crash-flush"'),  sample=sample, probes=True,
+                                   select=lambda sc: any(s["a"] == "crash" and s["at"] == "flush" for s in sc["steps"]),
+                                   timeout=2400).run(pool, storelib.default_violation(ctx), cov)
             for k, v in st["feats"].items():
                 feats[k] = feats.get(k, 0) + v
     finally:
